@@ -399,19 +399,31 @@ struct vf_known_abort {};
 struct IPShared { long execs, points, cases; long viol; long distinct; long known; long timedout; long cases_done; char msg[512]; long vcase; int vlen; unsigned char vprefix[MAXP]; char voutcome[2048]; char sample[4][1024]; int nsample; unsigned long ohash[1<<16]; };
 static IPShared* IP; static int ip_worker=-1; static long ip_case=0; static Result ipres; static unsigned char ipprefix[MAXP];
 static std::set<uint64_t>* ip_out;
+// Watchdog of the in-process explorer: harnesses built without instrumentation perform no counted steps, so a call that spins forever
+// would block the worker.  Every execution runs under alarm(case_timeout); on expiry the worker jumps out of the scenario and reports
+// a hang (or counts a known finding and goes on with the next case).
+#include <setjmp.h>
+static sigjmp_buf ip_jb; static volatile int ip_in_case=0; static int ip_case_timeout=180;
+static void ip_alarm(int){ if(ip_in_case) siglongjmp(ip_jb,1); }
 extern "C" int vf_main_cases(int argc,char**argv,long ncases,void(*scenario)(long)){
   parse_args(argc,argv); setvbuf(stdout,0,_IOLBF,0);
   long only_case=vf_param_int("case",-1); int jobs=O.jobs; bool replaying=!O.replay.empty()||only_case>=0; if(replaying) jobs=1;
   IPShared* sh=(IPShared*)mmap(0,sizeof(IPShared)*jobs,PROT_READ|PROT_WRITE,MAP_SHARED|MAP_ANONYMOUS,-1,0);
   double t0=now_s(); std::vector<pid_t> pids; fflush(stdout);
-  for(int j=0;j<jobs;j++){ pid_t p=fork(); if(p==0){ IP=&sh[j]; ip_worker=j; R=&ipres; prefix=ipprefix; active=1; inproc=1; window=1; me=0; nth=1; th[0].st=ST_RUN; horizon=~0ul; std::set<uint64_t> outs; ip_out=&outs;
+  ip_case_timeout=(int)vf_param_int("case_timeout",O.exec_timeout>20?O.exec_timeout:180);
+  for(int j=0;j<jobs;j++){ pid_t p=fork(); if(p==0){ signal(SIGALRM,ip_alarm); IP=&sh[j]; ip_worker=j; R=&ipres; prefix=ipprefix; active=1; inproc=1; window=1; me=0; nth=1; th[0].st=ST_RUN; horizon=~0ul; std::set<uint64_t> outs; ip_out=&outs;
       for(long c=(only_case>=0?only_case:j); c<ncases; c+=jobs){ ip_case=c; IP->cases++;
         struct PN{ std::vector<unsigned char> p; int cost; }; std::vector<PN> stack; PN r0; r0.cost=0;
         if(!O.replay.empty()){ const char*s=O.replay.c_str(); while(*s){ int pp=strtol(s,(char**)&s,10); if(*s==':'){ s++; int a=strtol(s,(char**)&s,10); if((int)r0.p.size()<pp+1) r0.p.resize(pp+1,0); r0.p[pp]=(unsigned char)a; } while(*s==','||*s==' ') s++; if(*s && !(*s>='0'&&*s<='9')) break; } }
         stack.push_back(r0);
         while(!stack.empty()){ if((IP->execs&1023)==0 && now_s()-t0>O.deadline){ IP->timedout=1; break; } PN n=std::move(stack.back()); stack.pop_back(); nprefix=(int)n.p.size(); memcpy(ipprefix,n.p.data(),nprefix); ipoint=0; mycost=0; steps=0; stampctr=0; ipres.outcome[0]=0; ipres.conflict=0; vf_rt_reset();
           IP->vcase=c; IP->vlen=nprefix; memcpy(IP->vprefix,ipprefix,nprefix);
-          try { scenario(c); } catch(vf_known_abort&) {}
+          ip_in_case=1;
+          if(sigsetjmp(ip_jb,1)==0){ alarm(ip_case_timeout); try { scenario(c); } catch(vf_known_abort&) {} alarm(0); }
+          else { char b[256]; snprintf(b,sizeof b,"hang: the execution did not finish within %d s (a call spins or blocks on a condition that never becomes true)%s%s",ip_case_timeout,ipres.outcome[0]?" after: ":"",ipres.outcome[0]?ipres.outcome:"");
+            bool known=false; for(auto&k:O.known) if(strstr(b,k.c_str())) known=true;
+            if(known) IP->known++; else { IP->viol=1; strncpy(IP->msg,b,511); strncpy(IP->voutcome,ipres.outcome,2047); _exit(3); } }
+          ip_in_case=0;
           IP->execs++; IP->points+=ipoint; uint64_t oh=mix(0x77,c); for(char*q=ipres.outcome;*q;q++) oh=mix(oh,(unsigned char)*q); if(outs.insert(oh).second){ IP->distinct++; if(IP->nsample<4 && (IP->execs%7==1||IP->nsample==0)){ snprintf(IP->sample[IP->nsample++],1024,"case %ld schedule-len %d: %s",c,ipoint,ipres.outcome);} }
           if(verbose) printf("case %ld cost=%d points=%d outcome=[%s]\n",c,mycost,ipoint,ipres.outcome);
           if(O.replay.empty()) for(int k=nprefix;k<ipoint;k++){ if(n.cost+1>O.bound) break; for(int alt=1;alt<ipres.nen[k];alt++){ PN nn; nn.p.assign(ipprefix,ipprefix+k); for(int z=nprefix;z<k;z++) nn.p[z]=0; nn.p.push_back((unsigned char)alt); nn.cost=n.cost+1; stack.push_back(std::move(nn)); } }
